@@ -781,7 +781,7 @@ fn gen_script(w: &mut World, rng: &mut Rng, len: usize, p_fail: u64) -> Vec<SRes
 fn gen_addq(rng: &mut Rng) -> Op {
     let backlog = *rng.pick(&[1u32, 1, 2, 2, 3, 4, 5, 0]);
     let mwpa = *rng.pick(&[1u32, 1, 2, 2, 3, 4, 4, 1, 2, 3, 0]);
-    let mwpa = if mwpa == 0 && !rng.chance(1, 4) { 1 } else { mwpa };
+    let mwpa = if mwpa == 0 && !rng.chance(1, 6) { 1 } else { mwpa };
     let maxw = if rng.chance(2, 5) { None } else { Some(*rng.pick(&[0u32, 1, 2, 3, 4, 5, 6, 8, 10])) };
     let lim = if rng.chance(1, 6) {
         None
@@ -815,10 +815,10 @@ fn gen_op(w: &mut World, rng: &mut Rng, style: u64) -> Op {
     let r = rng.below(100);
     // style 0: balanced, 1: failure heavy, 2: worker-event heavy, 3: status heavy
     let (t_tick, t_try, t_ref, t_conn, t_lost) = match style {
-        1 => (35, 43, 53, 63, 73),
-        2 => (18, 23, 31, 58, 85),
-        3 => (18, 23, 55, 67, 79),
-        _ => (25, 32, 44, 59, 74),
+        1 => (16, 43, 53, 63, 73),
+        2 => (9, 23, 31, 58, 85),
+        3 => (9, 23, 55, 67, 79),
+        _ => (12, 32, 44, 59, 74),
     };
     let p_fail = match style {
         1 => 55,
@@ -841,7 +841,7 @@ fn gen_op(w: &mut World, rng: &mut Rng, style: u64) -> Op {
         let mnw = if mn == 0 && rng.chance(2, 3) {
             0
         } else {
-            let over = if rng.chance(1, 6) { mwpa + 1 } else { mwpa };
+            let over = if rng.chance(1, 12) { mwpa + 1 } else { mwpa };
             *rng.pick(&[0u32, 1, 2, 2, 3, mwpa, mwpa, over])
         };
         let script = gen_script(w, rng, 7, p_fail);
